@@ -103,6 +103,7 @@ def run(check, prog):
     tie(check, prog)
     writer_table(check, prog)
     xarray_map(check, prog)
+    template_class(check, prog)
     # "applies the transformations": a derived prior must denote the arithmetic
     # that was written (shared rule with C14)
     from . import c14
@@ -1344,3 +1345,51 @@ def xarray_map(check, prog):
                   'rebuilds the array from the values with the keys as the labels of the '
                   'new dimension, in the same order', prog.loc(q2, fd2),
                   fail_detail='returns %s' % show(r)[:200])
+
+
+def template_class(check, prog):
+    """G11: from_parameters returns an object of the receiver's own class.
+
+    A Model does not keep the user's scatterer but `scatterer.from_parameters(<zeros>)`
+    as a template, and builds every later scatterer with
+    `template.from_parameters(values)`.  If from_parameters of some class returns an
+    object of *another* class, the template is of that other class and its
+    from_parameters knows nothing of the first class's own parameters: their values
+    are mapped, named, given priors -- and then ignored."""
+    bad = []
+    n = 0
+    for C in sorted(prog.subclasses(SCATTERER)):
+        hit = prog.lookup(C, 'from_parameters')
+        if not hit or hit[0] != 'method':
+            continue
+        q = hit[1] + '.from_parameters'
+        fd = prog.func(q)
+        me = sym(fd.args.args[0].arg)
+        it = Interp(prog, max_depth=0, inline_new=False)
+        it.types[me] = C
+        try:
+            res = it.analyze(q)
+        except AnalysisError:
+            continue
+        n += 1
+        for o in res.returns:
+            v = o.value
+            own = False
+            if v[0] == 'call' and v[1] in (('call', 'type', (me,), ()),
+                                           ('attr', me, '__class__')):
+                own = True
+            if v[0] == 'new' and v[1] == C:
+                own = True
+            if not own:
+                bad.append((C.rpartition('.')[2], prog.loc(q, fd), show(v)[:90]))
+    check.floor('scatterer classes whose from_parameters was evaluated', n, 12)
+    for cname, where, val in bad:
+        check.bad('G11-template-keeps-class', '%s.from_parameters' % cname,
+                  'returns %s -- not a %s: a Model built on a %s keeps that object as its '
+                  'template, so the values of the %s\'s own parameters (which the model '
+                  'lists, names and samples) never reach the scatterer' % (
+                      val, cname, cname, cname),
+                  where)
+    if not bad:
+        check.ok('G11-template-keeps-class', 'from_parameters of %d classes' % n,
+                 'every from_parameters constructs type(self)', '')
